@@ -1461,7 +1461,15 @@ def call_method(ex, node, st):
                     ex.fail(st, z3.BoolVal(True), 'TypeError')
                 return ex.str_fn('join', [recv] + args)
             if meth == 'split':
-                raise OutsideSubset('str.split')
+                # an uninterpreted function of (text, separator, maxsplit) into a
+                # non-empty list of strings
+                lty = TList(TStr)
+                sep = coerce(args[0], TStr) if args else lift(' ')
+                mx  = coerce(args[1], TInt) if len(args) > 1 else lift(-1)
+                f = z3.Function('str!split', C.StrSort, C.StrSort, z3.IntSort(), lty.sort())
+                out = Val(lty, f(coerce(recv, TStr).term, sep.term, mx.term))
+                st.assume(lty.len(out.term) >= 1)
+                return out
             return ex.str_fn(meth, [recv] + args)
 
     raise OutsideSubset('method %s on %s (line %s)' % (meth, recv, ex.cur_line))
